@@ -5,6 +5,7 @@ import collections
 import json
 import os
 import re
+import subprocess
 import sys
 import time
 
@@ -280,6 +281,12 @@ def run_history_check(prop, tier, mode, runs, cat, budget_s, design_ref, assumpt
         exit_code = 1
     extra_classes = max(0, handled - 6)
 
+    # ---- determinism sample: the same shard in fresh processes, side by side; every record and the sequence of
+    # all (size, address) pairs the worker process allocates must be identical (DESIGN 11.13)
+    det = determinism_sample(hr, mode, seed, 3 if tier == "quick" else 6, 40 if tier == "quick" else 120)
+    if not det.get("matched", True):
+        print("DETERMINISM-MISMATCH property=%s (recorded in the evidence; no verdict depends on it)" % prop)
+
     # ---- samples ----
     samples = []
     for run in sorted(hr.recs[0].keys())[:40]:
@@ -314,6 +321,7 @@ def run_history_check(prop, tier, mode, runs, cat, budget_s, design_ref, assumpt
         "violation_classes_not_gated": extra_classes,
         "unreproducible": unrepro,
         "supervisor": hr.sup,
+        "determinism_sample": det,
         "real_vs_stub": {"real": ["every /repo translation unit (ASan + bounds/return/unreachable), all 13 kinds, their save/load code and libcds loaders", "std::istream/std::ostream front ends"],
                          "simulated": ["the stream buffer behind every save/load (simdisk: seeded chunking, exact consumption accounting, poisoned tail, multi-image files, tag corruption, misdirected images)",
                                        "heap contents of fresh and freed memory (heap universes)", "order of API calls and client interleaving (simclients)", "restart (only saved images survive)", "MEMALLOC knob"]},
@@ -342,6 +350,41 @@ def run_history_check(prop, tier, mode, runs, cat, budget_s, design_ref, assumpt
     print("%s %s: %d simulated histories x universes, %d distinct non-trivial, %d ok, %d died, %d precondition_failed, %d violation class(es), %d known, %.1fs" %
           (prop, tier, evaluations, len(nontrivial), agg["verdicts"]["ok"], agg["verdicts"]["died"], sum(agg["precondition_failed"].values()), len(violations), len(known_hit), wall))
     return exit_code
+
+
+def determinism_sample(hr, mode, seed, procs, count):
+    """`procs` fresh worker processes execute the same `count` histories concurrently (so that pids, pipe timing and
+    CPU contention differ); compared: every JSON record, and per history a hash over every allocation (size, address)
+    the worker made -- the worker process, heap layout included, has to be a function of the seed."""
+    import threading
+    first = max(0, hr.runs // 2)
+    outs = [None] * procs
+
+    def go(i):
+        env = dict(os.environ)
+        env.update(universe_env(0))
+        env["VERIF_LAYOUT"] = "2"
+        env["VERIF_LAYOUT_FROM"] = "999999999"
+        try:
+            with open(os.devnull, "w") as dn:
+                r = subprocess.run(argv_run(hr.exe, mode, seed, first, count, hr.cat, hr.extra), stdout=subprocess.PIPE, stderr=subprocess.PIPE,
+                                   env=env, text=True, errors="replace", timeout=900, pass_fds=())
+            recs = [l for l in r.stdout.splitlines() if l.startswith('{"run"')]
+            mh = [l for l in r.stderr.splitlines() if l.startswith("MHASH ")]
+            outs[i] = (r.returncode, recs, mh)
+        except Exception as e:  # noqa
+            outs[i] = ("error: %s" % e, [], [])
+    ths = [threading.Thread(target=go, args=(i,)) for i in range(procs)]
+    for t in ths:
+        t.start()
+    for t in ths:
+        t.join()
+    base = outs[0]
+    rec_ok = all(o[1] == base[1] and o[0] == base[0] for o in outs)
+    mh_ok = all(o[2] == base[2] for o in outs)
+    return {"processes": procs, "first_history": first, "histories_per_process": len(base[2]), "records_compared": len(base[1]),
+            "records_identical": rec_ok, "allocation_sequences_identical": mh_ok, "matched": bool(rec_ok and mh_ok),
+            "measure": "per history one 64-bit hash over every (size, address) the worker process allocated since its start"}
 
 
 def gate(hr, prop, mode, u, rec, d, seed):
